@@ -98,6 +98,70 @@ Theorem C07_search_brackets_backward :
 Proof. exact search_brackets_backward_double. Qed.
 Print Assumptions C07_search_brackets_backward.
 
+(* the same search with the first (always forward) trial given separately and ARBITRARY (search2):
+   when the search goes down the loop re-evaluates `initial` with the backward acceptance, so the
+   found step may be `initial` itself (k = 0) *)
+Theorem C07_search2_brackets_forward :
+  forall (acc : Q -> option Q) (initial target : Q), Proper (Qeq ==> eq) acc ->
+  forall (a0 s : Q) (k : nat),
+    target < a0 -> initial <= hi_limit ->
+    search2 acc initial target (Some a0) = SFound s k ->
+    s == initial * qpow 2 k /\ (k < 100)%nat /\
+    (exists a, acc s = Some a /\ (a <= target \/ hi_limit < s)) /\
+    ((1 <= k)%nat -> exists a', acc (s / 2) = Some a' /\ target < a' /\ s / 2 <= hi_limit).
+Proof. exact search2_brackets_forward. Qed.
+Print Assumptions C07_search2_brackets_forward.
+
+Theorem C07_search2_brackets_backward :
+  forall (acc : Q -> option Q) (initial target : Q), Proper (Qeq ==> eq) acc ->
+  forall (a0 s : Q) (k : nat),
+    a0 <= target ->
+    search2 acc initial target (Some a0) = SFound s k ->
+    s == initial / qpow 2 k /\ (k < 100)%nat /\
+    (exists a, acc s = Some a /\ (target <= a \/ s < lo_limit)) /\
+    ((1 <= k)%nat -> exists a', acc (2 * s) = Some a' /\ a' < target /\ lo_limit <= 2 * s).
+Proof. exact search2_brackets_backward. Qed.
+Print Assumptions C07_search2_brackets_backward.
+
+(* the initial step is kept exactly when the first trial diverged, or a trial of the ladder
+   initial * 2^(+-j) diverged before any trial stopped the search, or 100 trials did not stop it *)
+Theorem C07_search2_keeps_initial_iff_diverged_or_exhausted :
+  forall (acc : Q -> option Q) (initial target : Q), Proper (Qeq ==> eq) acc ->
+  forall a_first : option Q,
+    search2 acc initial target a_first = SKeepInitial <->
+    a_first = None \/
+    exists a0, a_first = Some a0 /\
+      ((target < a0 /\
+        ((exists j, (j < 100)%nat /\ acc (initial * qpow 2 j) = None /\
+                    forall i, (i < j)%nat -> exists a, acc (initial * qpow 2 i) = Some a /\
+                                                     target < a /\ initial * qpow 2 i <= hi_limit)
+         \/ (forall i, (i < 100)%nat -> exists a, acc (initial * qpow 2 i) = Some a /\
+                                                target < a /\ initial * qpow 2 i <= hi_limit)))
+       \/
+       (a0 <= target /\
+        ((exists j, (j < 100)%nat /\ acc (initial / qpow 2 j) = None /\
+                    forall i, (i < j)%nat -> exists a, acc (initial / qpow 2 i) = Some a /\
+                                                     a < target /\ lo_limit <= initial / qpow 2 i)
+         \/ (forall i, (i < 100)%nat -> exists a, acc (initial / qpow 2 i) = Some a /\
+                                                a < target /\ lo_limit <= initial / qpow 2 i)))).
+Proof. exact search2_keeps_initial_iff_diverged_or_exhausted. Qed.
+Print Assumptions C07_search2_keeps_initial_iff_diverged_or_exhausted.
+
+(* at most 101 acceptance evaluations (the first trial + at most 100 trials of the loop); a found
+   step took k + 2 of them, with k < 100 *)
+Theorem C07_search2_evaluations :
+  forall (acc : Q -> option Q) (initial target : Q) (a_first : option Q),
+    (search2_evals acc initial target a_first <= 101)%nat.
+Proof. exact search2_evals_le_101. Qed.
+Print Assumptions C07_search2_evaluations.
+
+Theorem C07_search2_found_evaluations :
+  forall (acc : Q -> option Q) (initial target : Q) (a_first : option Q) (s : Q) (k : nat),
+    search2 acc initial target a_first = SFound s k ->
+    (k < 100)%nat /\ search2_evals acc initial target a_first = (k + 2)%nat.
+Proof. exact search2_found_iters_evals. Qed.
+Print Assumptions C07_search2_found_evaluations.
+
 (* both per-leapfrog acceptance statistics lie in [0,1] *)
 Theorem C07_accept_stat_range :
   (forall e : Q, 0 < e -> e <= 1 -> 0 <= acc_stat e /\ acc_stat e <= 1) /\
@@ -112,3 +176,12 @@ Example C07_nonvacuous :
   Qred (q_x (daq_run w c m 0 (3 # 1) (4 # 5) {| q_x := 0; q_xbar := 0; q_h := 0; q_n := 1 |} [1; 0])) = (-1 # 10).
 Proof. vm_compute. reflexivity. Qed.
 Print Assumptions C07_nonvacuous.
+
+(* a DOWN search (forward first trial 1/2 <= target 4/5): the backward acceptance at `initial` = 1
+   already reaches the target, so the loop stops at once with k = 0; and one that halves once *)
+Example C07_search2_nonvacuous :
+  eval_search [(1, Some 1)] 1 (4 # 5) (Some (1 # 2)) = [1; 1; 1; 0]%Z /\
+  eval_search [(1, Some (1 # 2)); (1 # 2, Some 1)] 1 (4 # 5) (Some (1 # 2)) = [1; 1; 2; 1]%Z /\
+  eval_search [(1, Some 1)] 1 (4 # 5) None = [0]%Z.
+Proof. vm_compute. repeat split. Qed.
+Print Assumptions C07_search2_nonvacuous.
